@@ -24,7 +24,7 @@ RULE = ("operations in the simplified form (tree of response-keyed fields, each 
         "deferred-returning-a-deferred / future already finished (or failed) when the executor receives it, top level written "
         "plainly, inside an inline fragment or as one fragment spread, outcome value | null | list | object | ResolverError | unexpected exception | "
         "unserialisable value, nullable / non-null / list typing): bounded-exhaustive over 1-2 top-level fields x 3 modes x "
-        "10 outcome shapes, then seeded random trees; every operation runs under all four configurations and, for the two "
+        "13 outcome shapes, then seeded random trees; every operation runs under all four configurations and, for the two "
         "deferred runtimes, under ALL completion orders when it has <= 4 (quick) / <= 6 (thorough) tasks, else FIFO + LIFO + "
         "random orders; plus REAL ThreadPoolExecutor pools with 1 and 2 workers, resolvers still in flight when callbacks are attached, "
         "nested futures submitted from pool tasks, hard 4 s timeout = failing case. "
@@ -323,6 +323,9 @@ def small_outcomes():
         ("bad", I, {"r": "ok", "v": "bad"}),
         ("obj-dd", sub("deferred", "deferred"), {"r": "ok", "v": {"a": {"r": "ok", "v": 1}, "b": {"r": "ok", "v": None}}}),
         ("obj-sd", sub("sync", "nested"), {"r": "ok", "v": {"a": {"r": "rerr"}, "b": {"r": "ok", "v": 2}}}),
+        ("tonull", {"t": "int", "scalar": "trim"}, {"r": "ok", "v": "tonull"}),
+        ("nn-tonull", {"t": "nn", "of": {"t": "int", "scalar": "trim"}}, {"r": "ok", "v": "tonull"}),
+        ("list-nn-tonull", {"t": "list", "of": {"t": "nn", "of": {"t": "int", "scalar": "trim"}}}, {"r": "ok", "v": [1, "tonull", 2]}),
         ("obj-exc", sub("sync", "sync"), {"r": "ok", "v": {"a": {"r": "exc"}, "b": {"r": "ok", "v": 2}}}),
         ("list-obj", {"t": "list", "of": {"t": "obj", "fields": [{"key": "a", "mode": "deferred", "ty": I}]}},
          {"r": "ok", "v": [{"a": {"r": "ok", "v": 1}}, None, {"a": {"r": "rerr"}}]}),
@@ -666,6 +669,140 @@ def args_stream(ctx, n_random):
     ctx.extra["args_stream_runs"] = n
 
 
+# ---------------------------------------------------------------------------
+# runtime API used from INSIDE resolvers (outside the Lean model: direct oracle only)
+
+def _plain_value(x):
+    return x * 2
+
+
+def _plain_fail(x):
+    raise W._resolver_error_cls()("inner failure %r" % (x,))
+
+
+def _r_submit(root, ctx, info, **kw):
+    return info.runtime.submit(_plain_value, 21)
+
+
+def _r_submit_fail(root, ctx, info, **kw):
+    return info.runtime.submit(_plain_fail, 1)
+
+
+def _r_wrapped(root, ctx, info, **kw):
+    return info.runtime.ensure_wrapped(5)
+
+
+def _r_wrap_callable(root, ctx, info, **kw):
+    return info.runtime.wrap_callable(_plain_value)(4)
+
+
+def _r_gather(root, ctx, info, **kw):
+    rt = info.runtime
+    return rt.map_value(rt.gather_values([rt.submit(_plain_value, 1), 7, rt.ensure_wrapped(3)]), sum)
+
+
+def _r_obj(root, ctx, info, **kw):
+    return {}
+
+
+def _r_plain(root, ctx, info, **kw):
+    return 1
+
+
+RUNTIME_API_SDL = ("type Query { s: Int f: Int w: Int c: Int g: Int p: Int o: O } "
+                   "type O { s: Int f: Int w: Int c: Int g: Int p: Int } "
+                   "type Mutation { s: Int f: Int w: Int c: Int g: Int p: Int }")
+RUNTIME_API_QUERIES = (
+    "{ s }", "{ f }", "{ w }", "{ c }", "{ g }", "{ p s f w c g }", "{ o { s f w c g p } p }", "{ o { f } s o2: o { s w } }",
+    "mutation { s f w }", "mutation { f p c g s }", "mutation { ...T } fragment T on Mutation { w f s }",
+)
+
+
+def runtime_api_stream(ctx):
+    """
+    Plain (non-coroutine) resolvers that call `info.runtime.submit / ensure_wrapped / wrap_callable / gather_values /
+    map_value` themselves. Configurations: BlockingExecutor (reference); generic Executor on BlockingRuntime;
+    `py_gql.graphql()` itself, i.e. a DEFAULT-constructed `AsyncIORuntime()` whose plain resolvers run on the loop's
+    worker threads; `AsyncIORuntime(execute_blocking_functions_in_thread=False)`; a real 2-worker `ThreadPoolRuntime`.
+    All on a private event loop; hard timeouts (confirmed by a long re-run before anything is reported).
+    """
+    import asyncio
+    import concurrent.futures
+    import py_gql
+    from py_gql import build_schema, process_graphql_query
+    from py_gql.execution import BlockingExecutor, Executor
+    from py_gql.execution.runtime import AsyncIORuntime, BlockingRuntime, ThreadPoolRuntime
+
+    schema = build_schema(RUNTIME_API_SDL)
+    table = {"s": _r_submit, "f": _r_submit_fail, "w": _r_wrapped, "c": _r_wrap_callable, "g": _r_gather, "p": _r_plain}
+    for tname in ("Query", "O", "Mutation"):
+        for fname, fn in table.items():
+            schema.register_resolver(tname, fname, fn)
+    schema.register_resolver("Query", "o", _r_obj)
+
+    def canon(res):
+        return ["ok", dumps(res.data), W.canon_errors(res.errors)]
+
+    def failed(err):
+        return ["failed", type(err).__name__]
+
+    def on_loop(make_coro, timeout):
+        loop = W.private_loop()
+        try:
+            return canon(loop.run_until_complete(asyncio.wait_for(make_coro(), timeout)))
+        except asyncio.TimeoutError:
+            return ["timeout"]
+        except Exception as err:  # noqa
+            return failed(err)
+
+    def run_cfg(cfg, query, timeout):
+        try:
+            if cfg == "blocking":
+                return canon(process_graphql_query(schema, query, runtime=BlockingRuntime(), executor_cls=BlockingExecutor))
+            if cfg == "generic-blocking":
+                return canon(process_graphql_query(schema, query, runtime=BlockingRuntime(), executor_cls=Executor))
+            if cfg == "asyncio-graphql()":
+                return on_loop(lambda: py_gql.graphql(schema, query), timeout)
+            if cfg == "asyncio-inline":
+                async def main():
+                    return await process_graphql_query(
+                        schema, query, runtime=AsyncIORuntime(execute_blocking_functions_in_thread=False), executor_cls=Executor)
+                return on_loop(main, timeout)
+            rt = ThreadPoolRuntime(max_workers=2)
+            try:
+                fut = process_graphql_query(schema, query, runtime=rt, executor_cls=Executor)
+                return canon(fut.result(timeout=timeout))
+            except concurrent.futures.TimeoutError:
+                return ["timeout"]
+            finally:
+                try:
+                    rt._inner.shutdown(wait=False, cancel_futures=True)
+                except TypeError:
+                    rt._inner.shutdown(wait=False)
+        except Exception as err:  # noqa
+            return failed(err)
+
+    n = 0
+    for query in RUNTIME_API_QUERIES:
+        if ctx.out_of_time():
+            break
+        ref = run_cfg("blocking", query, 5)
+        ctx.stat("runtime-api:" + ref[0])
+        for cfg in ("generic-blocking", "asyncio-graphql()", "asyncio-inline", "threadpool-real-w2"):
+            got = run_cfg(cfg, query, 5)
+            if got == ["timeout"]:
+                got = run_cfg(cfg, query, 30)          # wall-clock: confirm before reporting
+                if got != ["timeout"]:
+                    ctx.stat("watchdog-unconfirmed")
+            ctx.count()
+            n += 1
+            if got != ref:
+                ctx.fail("c08:runtime-api:%s:%s-vs-%s:%s" % (cfg, ref[0], got[0], "+".join(sorted(set(c for c in query if c in "sfwcgpo")))),
+                         "runtime API used inside plain resolvers: %s gives %s, BlockingExecutor gives %s" % (cfg, got, ref),
+                         {"query": query, "config": cfg, "blocking": ref, "got": got, "stream": "runtime-api"})
+    ctx.extra["runtime_api_runs"] = n
+
+
 def run(ctx):
     W.quiet()
     chk = Checker(ctx, "C08")
@@ -673,6 +810,7 @@ def run(ctx):
         run_streams(ctx, chk)
         real_pool_stage(ctx, "C08", n_random=6 if ctx.tier == "quick" else 40)
         args_stream(ctx, 12 if ctx.tier == "quick" else 120)
+        runtime_api_stream(ctx)
     finally:
         W.close_private_loop()
     ctx.extra["configurations"] = list(CONFIGS)
@@ -682,6 +820,16 @@ def run(ctx):
 def replay(ctx, data):
     W.quiet()
     inp = data.get("input", {})
+    if inp.get("stream") == "runtime-api":
+        before = len(ctx.found)
+        saved = globals()["RUNTIME_API_QUERIES"]
+        try:
+            globals()["RUNTIME_API_QUERIES"] = (inp["query"],)
+            runtime_api_stream(ctx)
+        finally:
+            globals()["RUNTIME_API_QUERIES"] = saved
+            W.close_private_loop()
+        return len(ctx.found) == before
     if inp.get("stream") == "args":
         before = len(ctx.found)
         saved = args_cases
